@@ -125,9 +125,9 @@ def _gen_ops(rng, t, nops, zero=False, squash=False, products=True, con=0.0, hig
     mat = t in MATRIX_TYPES
     kind = _kind(t)
     deg2 = kind in ("qubo", "quso")
-    nlab = rng.choice([2, 3, 3, 4])
+    nlab = rng.choice([2, 3, 3, 4] if mat else [2, 3, 3, 4, 5])
     if high:
-        nlab = rng.choice([3, 4, 4])
+        nlab = rng.choice([3, 4, 4] if mat else [3, 4, 4, 5])
     pool = _pool(t, nlab, squash)
     hpool = [k for k in pool if len(set(k)) >= 3]
     labels = (INT_LABELS if mat else LABELS)[:nlab]
